@@ -144,10 +144,19 @@ def run(ctx):
         ok_a = False
         if inner:
             call = inner[-1][2]
-            ok_a = as_param_path(call[2][0]) == (1, ('difficulty',)) and as_param_path(call[2][1]) == (3, ()) and \
+            narg = prov.strip(call[2][1], names=set())
+            n_ok = as_param_path(narg, through_calls=False) == (3, ())
+            if not n_ok and narg[0] == 'call' and narg[1].get('name') == 'min' and len(narg[2]) == 2:
+                # documented clamp: process all remaining objects when n exceeds them -> min(n, self.difficulty.len() - 1)
+                sides = [prov.strip(x, names=set()) for x in narg[2]]
+                has_n = any(as_param_path(x, through_calls=False) == (3, ()) for x in sides)
+                has_len = any(any(y[0] == 'call' and y[1].get('name') == 'len' and as_param_path(y[2][0]) == (1, ('difficulty',)) for y in prov.walk(x, limit=20))
+                              for x in sides)
+                n_ok = has_n and has_len
+            ok_a = as_param_path(call[2][0]) == (1, ('difficulty',)) and n_ok and \
                 'GradualDifficulty' in (call[1].get('path') or '')
         n2 += 1
-        ctx.require(ok_a, 'C03-R2', '%s:nth:inner' % mode, 'attributes come from self.difficulty.nth(n) with the parameter n', nth.where(),
+        ctx.require(ok_a, 'C03-R2', '%s:nth:inner' % mode, 'attributes come from self.difficulty.nth(n) with the parameter n (optionally clamped to the remaining length)', nth.where(),
                     bad='%s::nth: inner iterator step is not self.difficulty.nth(<parameter n>): chain %s' % (adt, names))
         # (b) state step with the parameter state
         st = [c for c in chain if c[0] == 'state']
